@@ -212,8 +212,12 @@ func (its *clientImpl) subscribeOrCreateDatatype(
 	// TODO: this would be better go into datatypeManager
 	if its.datatypeManager != nil {
 		data, err := its.datatypeManager.ExistDatatype(key, typeOf)
-		if err != nil && handler != nil {
-			handler.errorHandler(nil, err)
+		if err != nil {
+			// The client holds the key with another type: refused, whether or not the caller gave an
+			// error handler (going on would put a second object of the other type under the key).
+			if handler != nil && handler.errorHandler != nil {
+				handler.errorHandler(nil, err)
+			}
 			return nil
 		}
 		if data != nil {
@@ -246,7 +250,7 @@ func (its *clientImpl) subscribeOrCreateDatatype(
 		}
 	}
 
-	if handler != nil && errs.Return() != nil {
+	if handler != nil && handler.errorHandler != nil && errs.Return() != nil {
 		handler.errorHandler(nil, errs.ToArray()...)
 	}
 	return datatype
